@@ -237,7 +237,10 @@ def nibabel_image_to_precomputed(img,
     shape = img.header.get_data_shape()
 
     proxy = img.dataobj
-    if ignore_scaling:
+    # In-memory images (e.g. the channel-split RGB volumes) hold a plain
+    # array, which has no slope/intercept scaling to be ignored or adjusted
+    is_proxy = nibabel.is_proxy(proxy)
+    if ignore_scaling and is_proxy:
         proxy._slope = 1.0
         proxy._inter = 0.0
 
@@ -284,10 +287,17 @@ def nibabel_image_to_precomputed(img,
             input_min = 0
         postscaling_slope = (output_max - output_min) / (input_max - input_min)
         postscaling_inter = output_min - input_min * postscaling_slope
-        prescaling_slope = proxy.slope
-        prescaling_inter = proxy.inter
-        proxy._slope = prescaling_slope * postscaling_slope
-        proxy._inter = prescaling_inter * postscaling_slope + postscaling_inter
+        if is_proxy:
+            prescaling_slope = proxy.slope
+            prescaling_inter = proxy.inter
+            proxy._slope = prescaling_slope * postscaling_slope
+            proxy._inter = (prescaling_inter * postscaling_slope
+                            + postscaling_inter)
+        else:
+            proxy = np.asarray(proxy) * postscaling_slope + postscaling_inter
+        # The data type returned by nibabel depends on the resulting scaling
+        # (e.g. an identity scaling returns the on-disk integer type)
+        input_dtype = proxy[tuple(0 for _ in shape)].dtype
 
     # Transformations applied to the voxel values
     chunk_transformer = (
@@ -297,7 +307,7 @@ def nibabel_image_to_precomputed(img,
     )
     if load_full_volume:
         logger.info("Loading full volume to memory... ")
-        volume = np.asanyarray(img.dataobj)
+        volume = np.asanyarray(proxy)
     else:
         volume = proxy
     logger.info("Writing chunks... ")
@@ -317,13 +327,9 @@ def volume_file_to_precomputed(volume_filename,
                         img.dataobj)
     if is_rgb:
         proxy = np.asarray(img.dataobj)
-        new_proxy = proxy.view(dtype=np.uint8, type=np.ndarray)
-        third = int(new_proxy.shape[0] / 3)
-        new_dataobj = np.stack([
-            new_proxy[0:third],
-            new_proxy[third:2*third],
-            new_proxy[2*third:]
-        ], axis=-1)
+        # Split the structured (R, G, B) voxels into a trailing channel axis
+        new_dataobj = np.stack([proxy[name] for name in proxy.dtype.names],
+                               axis=-1)
         img = nibabel.Nifti1Image(new_dataobj, img.affine)
 
     accessor = neuroglancer_scripts.accessor.get_accessor_for_url(
